@@ -72,7 +72,7 @@ def case_strategy(profile):
         # the two endpoints may advertise different idle timeouts: the smaller one is in force once both are known
         extra = {"idle_timeout": st.sampled_from([60.0, 60.0, 4.0, 2.0]), "s_idle_timeout": st.sampled_from([None, None, 2.0, 5.0, 60.0]), "c_idle_timeout": st.sampled_from([None, None, None, 3.0, 60.0])}
     elif profile.get("cfg_extra_fn") == "c13":
-        extra = {"leaf": st.sampled_from(["ed25519", "rsa", "chain2", "chain3", "chain3"]), "retry": st.sampled_from([False, False, True])}
+        extra = {"leaf": st.sampled_from(["ed25519", "p256", "rsa", "chain2", "chain3", "chain3"]), "retry": st.sampled_from([False, False, True]), "mute_client_after": st.sampled_from([None, None, 1, 1, 2, 3])}
     if profile.get("c_keylog"):
         extra = dict(extra or {}, c_keylog=st.just(True))
     if profile.get("jitter0"):
